@@ -517,6 +517,11 @@ class Interp:
         m = self.models.get(cls)
         if m is not None:
             return m(self, args, kwargs)
+        if cls.__module__.startswith("matplotlib.") and cls.__module__.split(".")[1] in ("patches", "text", "lines", "collections", "path"):
+            from .libmodels import MplObj
+
+            self.ctx.used_models.add("matplotlib artists: constructors only record (kind, arguments); nothing of matplotlib is executed")
+            return MplObj(cls.__name__, list(args), dict(kwargs))
         if cls.__module__.endswith("_pb2"):
             from . import pbmodel
 
